@@ -40,6 +40,19 @@ def base_oid(oid):
     return re.sub(r'#\d+$', '', oid)
 
 
+def obligation_function(oid, concrete):
+    """map an obligation id 'C05/_cache.DNSCache._async_add/ensures#0' to the key used by the concrete check"""
+    try:
+        mid = oid.split('/')[1]
+    except IndexError:
+        return None
+    for fn in concrete:
+        mod, q = fn.split(':')
+        if mod.replace('zeroconf.', '') + '.' + q == mid:
+            return fn
+    return None
+
+
 def load_known_findings():
     p = os.path.join(VERIF, 'known_findings.json')
     if not os.path.exists(p):
@@ -92,6 +105,23 @@ class Run:
         if hasattr(self.mod, 'static_checks'):
             self.static = self.mod.static_checks(self.repo)
 
+    def crosscheck(self):
+        """bounded concrete check of every function under contract (same contract text, real code)"""
+        import sys
+        from . import crosscheck, source
+        if source.REPO_SRC not in sys.path:
+            sys.path.insert(0, source.REPO_SRC)
+        n = int(os.environ.get('VERIF_CONCRETE_N', 40 if self.tier == 'quick' else 400))
+        out = {}
+        skip = set(getattr(self.mod, 'NO_CONCRETE', ()))
+        for c in self.R.contracts.values():
+            if self.prop in c.props and c.verify and c.key not in skip and c.qualname not in skip:
+                f = self.repo.func(c.module, c.qualname)
+                out['%s:%s' % c.key] = crosscheck.run_contract(c, f, self.R.spec_funcs, getattr(self.R, 'generators', {}),
+                                                              n, self.seed)
+        self.concrete = out
+        return out
+
     def axioms(self):
         ax = base_axioms() + self.ctx.literal_axioms() + card_axioms() + list_hash_axioms()
         for fn in self.R.axioms:
@@ -120,6 +150,8 @@ def run_property(prop, tier='quick', seed=0, replay=None):
         if not run.ctx.obligations:
             raise VCError('zero obligations generated')
         run.discharge()
+        if not os.environ.get('VERIF_NO_CONCRETE'):
+            run.crosscheck()
         if hasattr(run.mod, 'bounded_checks') and (tier == 'thorough' or getattr(run.mod, 'BOUNDED_IN_QUICK', False)):
             run.bounded = run.mod.bounded_checks(run, tier, seed)
     except VCError as e:
@@ -147,6 +179,45 @@ def run_property(prop, tier='quick', seed=0, replay=None):
         else:
             violations.append(r)
     bounded_viol = []
+    concrete = getattr(run, 'concrete', {}) or {}
+    conc_fail = {}
+    conc_err = []
+    for fn, res in concrete.items():
+        for e in res['errors']:
+            conc_err.append('%s: %s' % (fn, e))
+        for fl in res['failures']:
+            conc_fail.setdefault(fn, []).append(fl)
+    if conc_err and status == 0:
+        fault = ('checker-fault', 'concrete contract evaluation failed: ' + ' | '.join(conc_err)[:1500])
+        status = 3
+    # a timeout on an obligation of a function for which a concrete failing input exists is a violation
+    still_unknown = []
+    for r in unknown:
+        fn = obligation_function(r.ob.oid, concrete)
+        if fn and conc_fail.get(fn):
+            r.verdict = 'refuted'
+            r.solver = 'concrete-search'
+            refuted.append(r)
+            b = base_oid(r.ob.oid)
+            hit = [f for f in kf.get('findings', []) if f['property'] == prop and f['obligation'] == b]
+            if hit:
+                known.append((r, hit[0]))
+            else:
+                violations.append(r)
+        else:
+            still_unknown.append(r)
+    unknown = still_unknown
+    # concrete failures of functions with no failed obligation: contract/engine mismatch or defect -> report
+    reported_fns = set(obligation_function(r.ob.oid, concrete) for r in refuted)
+    for fn, fls in conc_fail.items():
+        if fn in reported_fns:
+            continue
+        sig = '%s/%s' % (fn, fls[0]['clause'])
+        hit = [f for f in kf.get('findings', []) if f['property'] == prop and f.get('concrete') == sig]
+        if hit:
+            known.append((None, hit[0]))
+        else:
+            bounded_viol.append(('concrete-contract-check', {'signature': sig, 'function': fn, 'failure': fls[0]}))
     for name, b in (run.bounded or {}).items():
         for v in b.get('violations', []):
             hit = [f for f in kf.get('findings', []) if f['property'] == prop and f.get('bounded') == name
@@ -174,6 +245,15 @@ def run_property(prop, tier='quick', seed=0, replay=None):
         rep = {'property': prop, 'obligation': r.ob.oid, 'kind': r.ob.kind, 'where': r.ob.where,
                'note': r.ob.note, 'solver': r.solver, 'solver_output': r.model, 'replayed': False}
         tail = ' no-failing-input-found'
+        fn_ = obligation_function(r.ob.oid, concrete)
+        if fn_ and conc_fail.get(fn_):
+            fl = conc_fail[fn_]
+            best = [x for x in fl if x['clause'].split('#')[0] in r.ob.oid] or fl
+            rep['replay'] = {'reproduced': True, 'function': fn_, 'failing_input': best[0]['inputs'],
+                             'violated_clause': best[0]['clause'], 'detail': best[0]['detail'],
+                             'how': 'real function executed by CPython on this input; the contract clause evaluated false'}
+            rep['replayed'] = True
+            tail = ''
         replayer = None
         for pref, fn in run.R.replays.items():
             if base_oid(r.ob.oid).startswith(pref) or pref in r.ob.oid:
@@ -256,6 +336,18 @@ def run_property(prop, tier='quick', seed=0, replay=None):
                         ('all obligations discharged' if all_ok else
                          'NOT all obligations discharged (%d of %d)%s' % (n_dis, n_obl, '; ' + fault[1][:400] if fault else ''))),
     }
+    if concrete:
+        cov['bounded_concrete_contract_check'] = {
+            'note': 'BOUNDED, not counted as proved: the same contract text evaluated by CPython around calls of the '
+                    'real functions on generated small inputs (cross-check of contracts and engine; replay search)',
+            'evaluations': sum(v['evaluations'] for v in concrete.values()),
+            'functions': len(concrete),
+            'inputs_rejected_by_precondition': sum(v['skipped_by_precondition'] for v in concrete.values()),
+            'failures': sum(len(v['failures']) for v in concrete.values()),
+            'per_function_evaluations': {k: v['evaluations'] for k, v in concrete.items()},
+            'bound': 'random small-scope inputs by type (pool of 9 names in 2 spellings, 7 record kinds, TTL in '
+                     '{0,1,2,120,1124,1125,4500}, caches of <= 5 records), N per function = VERIF_CONCRETE_N',
+        }
     if run.bounded:
         cov['bounded'] = {k: {kk: vv for kk, vv in v.items() if kk != 'violations'} for k, v in run.bounded.items()}
         cov['bounded_note'] = 'bounded stand-ins are NOT counted in obligations/discharged'
